@@ -98,6 +98,8 @@ def discover(ctx):
 
 
 def is_scan(li, e, it, p):
+    """name of the state component read by event e (a scanned container/counter of the executor, or one of
+    the two stop flags), else None"""
     X = li.exec_term
     terms = []
     if e.kind == "branch":
@@ -110,10 +112,14 @@ def is_scan(li, e, it, p):
     for t in terms:
         for s in subterms(t):
             if s[0] == "attr" and s[1] == X and s[2] in li.scanned:
-                return True
+                return s[2]
             if s[0] == "attr" and isinstance(s[1], tuple) and s[1][0] == "attr" and s[1][1] == X and (s[1][2], s[2]) in li.counters:
-                return True
-    return False
+                return "%s.%s" % (s[1][2], s[2])
+            if e.kind == "branch" and s[0] == "attr" and s[2] == "is_shutdown" and isinstance(s[1], tuple) and s[1][0] == "attr" and s[1][1] == X:
+                return "<executor shutdown flag>"
+            if e.kind == "branch" and s[0] == "attr" and s[2] == "shutdown" and isinstance(s[1], tuple) and s[1][0] == "global":
+                return "<interpreter exit flag>"
+    return None
 
 
 def check_loops(ctx, rep, loops, only_owner=None):
@@ -129,30 +135,42 @@ def check_loops(ctx, rep, loops, only_owner=None):
             for e in p.events:
                 if e.kind == "call" and q.call_name(e) in ("wait", "clear") and it.type_of(q.recv(e), p) == "E:Event":
                     seq.append((q.call_name(e), e))
-                elif is_scan(li, e, it, p):
-                    if not seq or seq[-1][0] != "scan":
-                        seq.append(("scan", e))
+                else:
+                    comp = is_scan(li, e, it, p)
+                    if comp is not None:
+                        seq.append(("scan:" + comp, e))
             waits = [x for x in seq if x[0] == "wait"]
             if not waits:
                 continue
             n += 1
-            sig = "%s [%s]" % (li.target.qualname, " ".join(k for k, _ in seq))
             for k, e in seq:
                 if k in ("wait", "clear"):
                     r = q.recv(e)
                     ok = isinstance(r, tuple) and r[0] == "attr" and r[2] == li.event_field and r[1] == li.exec_term
                     rep.ob("R-WAKE-L", "%s: %s on the loop's own event" % (li.target.qualname, k), ok, "%s() on %s, the loop's event is %s" % (k, fmt(r), li.event_field), where_of(e.fn, e.node), trace_of(p, e.seq))
             kinds = [k for k, _ in seq]
+            comps = sorted(set(k[5:] for k in kinds if k.startswith("scan:")))
+            short = []
+            for k in kinds:
+                kk = "scan(%s)" % k[5:] if k.startswith("scan:") else k
+                if not short or short[-1] != kk:
+                    short.append(kk)
             m = len(kinds)
             for i, k in enumerate(kinds):
                 if k == "clear":
+                    # every component of the state this iteration looks at must be looked at again
+                    # between this clear() and the next wait() (cyclically)
+                    seen = set()
                     j = (i + 1) % m
                     steps = 0
-                    while kinds[j] == "clear" and steps < m:
+                    while kinds[j] != "wait" and steps < m:
+                        if kinds[j].startswith("scan:"):
+                            seen.add(kinds[j][5:])
                         j = (j + 1) % m
                         steps += 1
-                    ok = kinds[j] == "scan"
-                    rep.ob("R-WAKE-L", "%s: state re-scanned between clear() and the next wait()" % li.target.qualname, ok, "iteration order is [%s]: after clear() the next step is %s, so a set() that arrives between the last scan and clear() is lost" % (" ".join(kinds), kinds[j]), where_of(seq[i][1].fn, seq[i][1].node), trace_of(p))
+                    for c in comps:
+                        rep.ob("R-WAKE-L", "%s: %s re-read between clear() and the next wait()" % (li.target.qualname, c), c in seen,
+                               "iteration order is [%s]: %s is not read between clear() and the following wait(), so a change of it followed by set() that lands before the clear() is lost" % (" ".join(short), c), where_of(seq[i][1].fn, seq[i][1].node), trace_of(p))
                 if k == "wait":
                     j = (i + 1) % m
                     steps = 0
@@ -165,7 +183,7 @@ def check_loops(ctx, rep, loops, only_owner=None):
                             break
                         j = (j + 1) % m
                         steps += 1
-                    rep.ob("R-WAKE-L", "%s: wait() is followed by clear()" % li.target.qualname, found, "iteration order is [%s]: the event is never cleared after a wake-up" % " ".join(kinds), where_of(seq[i][1].fn, seq[i][1].node), trace_of(p))
+                    rep.ob("R-WAKE-L", "%s: wait() is followed by clear()" % li.target.qualname, found, "iteration order is [%s]: the event is never cleared after a wake-up" % " ".join(short), where_of(seq[i][1].fn, seq[i][1].node), trace_of(p))
         rep.ob("R-WAKE-L", "%s: has waiting iterations" % li.target.qualname, n > 0, "no iteration path reaches a wait (analysis anchor)", where_of(li.target))
 
 
